@@ -104,8 +104,7 @@ Init ==
   /\ home \in [Classes -> {CHOOSE m \in Modules : TRUE}]
   /\ parens = [s \in Sites |-> 0] /\ blocks = [s \in Sites |-> 0]
   /\ annotated = {} /\ explicit = {}
-  /\ lamAnnot \in [Lambdas -> {{}, {1}}]      \* lambdas arrive un-annotated or partly annotated
-  /\ \A x \in Lambdas : lamAnnot[x] \subseteq 1..Arity[x]
+  /\ lamAnnot = [x \in Lambdas |-> {}]     \* partly annotated lambdas are reached by single-parameter steps
   /\ verdict = Verdict(bname, uname, typeErrs)
   /\ errorCount = ErrorCount(bname, uname, typeErrs)
   /\ obs = Obs(bname, uname, typeErrs)
